@@ -9,6 +9,7 @@ import (
 	"grog/internal/hashing"
 	"grog/internal/maps"
 	"grog/internal/model"
+	"grog/internal/verifhook"
 	"grog/internal/output/handlers"
 	"grog/internal/proto/gen"
 	"grog/internal/worker"
@@ -177,6 +178,7 @@ func (r *Registry) GetNoCacheOutputHash(ctx context.Context, target *model.Targe
 			if err != nil {
 				return err
 			}
+			verifhook.Gate("outhash." + localOutputRef.Identifier)
 			outputsMutex.Lock()
 			digests = append(digests, outputDigest)
 			outputsMutex.Unlock()
